@@ -251,7 +251,17 @@ def observations(ctx):
     }
     ctx.cov["replay"]["observations"] = {k: bool(c.get(k)) for k in obs}
     for k, text in obs.items():
+        if k == "priming_loopback":
+            continue
         ctx.log("OBSERVATION %s: %s -- %s" % (k, "present" if c.get(k) else "absent", text))
+    # the address clause ("glue addresses are used ... never loopback or local-interface addresses") does bear on the
+    # addresses of the ROOT's nameservers learned from the priming reply's additional section: they are glue like any other
+    if c.get("priming_loopback"):
+        ctx.violation("priming/loopback-address-used",
+                      "[Bailiwick priming] a priming reply naming 127.0.0.1 as a root server's address was installed: the "
+                      "resolver sent a client's query to loopback (Resolver.checkPriming takes the additional section's "
+                      "addresses without the usableAddr filter every referral's glue goes through)",
+                      {"driver": "observe", "case": "priming_loopback"})
     if res.get("skipped"):
         ctx.log("observations skipped: %s" % res["skipped"][:2])
 
